@@ -1,5 +1,295 @@
 package main
 
-import . "verifharness/internal/core"
+// SP side of C08: the decrypted assertion goes through the same checks as a
+// plaintext one, and undecryptable or malformed ciphertext is a validation
+// failure (an error, never a panic, never an accepted assertion).
 
-func c08SPSide(c *Ctx) {}
+import (
+	. "verifharness/internal/core"
+
+	"crypto/aes"
+	"crypto/cipher"
+	"crypto/des"
+	"crypto/rand"
+	"crypto/rsa"
+	"crypto/sha1"
+	"encoding/base64"
+	"fmt"
+	mrand "math/rand"
+	"net/http/httptest"
+	"net/url"
+	"time"
+
+	"github.com/beevik/etree"
+	"github.com/crewjam/saml"
+
+	"verifharness/internal/fix"
+)
+
+type spFixture struct {
+	sp    *saml.ServiceProvider
+	idp   *saml.IdentityProvider
+	spMD  *saml.EntityDescriptor
+	cfg   mCfg
+	now   time.Time
+	reqID string
+}
+
+func newSPFixture(now time.Time, withCert bool) *spFixture {
+	cfg := mCfg{SSOURL: "https://idp.example.com/saml/sso", Entity: "https://idp.example.com/saml/metadata", Delay: 90 * time.Second, Skew: 180 * time.Second, Key: 1}
+	f := &spFixture{cfg: cfg, now: now, reqID: "id-request-1"}
+	withGlobals(cfg, now, func() {
+		f.idp = newIDP(cfg, nil, c05Session)
+		idpMD, _ := xmlReparse(f.idp.Metadata())
+		f.sp = &saml.ServiceProvider{Key: fix.RSAKey("rsa_b"), Certificate: fix.Cert("rsa_b"), MetadataURL: mustURL("https://sp.example.com/saml2/metadata"),
+			AcsURL: mustURL("https://sp.example.com/saml2/acs"), IDPMetadata: idpMD}
+		pub := *f.sp
+		if !withCert {
+			pub.Certificate = nil // the metadata handed to the IdP advertises no key: the IdP signs but does not encrypt
+		}
+		f.spMD, _ = xmlReparse(pub.Metadata())
+		f.idp.ServiceProviderProvider = reparsedRegistry{f.spMD}
+	})
+	return f
+}
+
+// signedAssertion has the real IdP build and sign an assertion, after [mutate] changed it.
+func (f *spFixture) signedAssertion(mutate func(*saml.Assertion), signKey int64) (xmlText string, err error) {
+	defer func() {
+		if p := recover(); p != nil {
+			err = fmt.Errorf("panic: %v", p)
+		}
+	}()
+	withGlobals(f.cfg, f.now, func() {
+		idp := *f.idp
+		if signKey > 1 {
+			idp.Key = keyOf(signKey) // signs with a key the SP does not trust (certificate left as is)
+		}
+		w := mWire{ID: f.reqID, Version: "2.0", Issue: sptr(f.now.UTC().Format("2006-01-02T15:04:05.000Z")), Destination: f.cfg.SSOURL,
+			Issuer: sptr(f.spMD.EntityID), ACSURL: f.sp.AcsURL.String()}
+		hr := httpRequest("POST", f.cfg.SSOURL, encodeFor("POST", []byte(w.xml())), "")
+		req, e := saml.NewIdpAuthnRequest(&idp, hr)
+		if e == nil {
+			e = req.Validate()
+		}
+		if e == nil {
+			e = (saml.DefaultAssertionMaker{}).MakeAssertion(req, c05Session)
+		}
+		if e != nil {
+			err = e
+			return
+		}
+		if mutate != nil {
+			mutate(req.Assertion)
+		}
+		if signKey == 0 { // unsigned
+			doc := etree.NewDocument()
+			doc.WriteSettings.CanonicalText, doc.WriteSettings.CanonicalAttrVal = true, true
+			doc.SetRoot(req.Assertion.Element())
+			xmlText, err = doc.WriteToString()
+			return
+		}
+		if e := req.MakeAssertionEl(); e != nil {
+			err = e
+			return
+		}
+		doc := etree.NewDocument()
+		doc.WriteSettings.CanonicalText, doc.WriteSettings.CanonicalAttrVal = true, true
+		doc.SetRoot(req.AssertionEl)
+		xmlText, err = doc.WriteToString()
+	})
+	return
+}
+
+func (f *spFixture) responseXML(inner string) string {
+	return fmt.Sprintf(`<samlp:Response xmlns:samlp="urn:oasis:names:tc:SAML:2.0:protocol" xmlns:saml="urn:oasis:names:tc:SAML:2.0:assertion" ID="id-resp-1" InResponseTo="%s" Version="2.0" IssueInstant="%s" Destination="%s">`+
+		`<saml:Issuer>%s</saml:Issuer><samlp:Status><samlp:StatusCode Value="urn:oasis:names:tc:SAML:2.0:status:Success"/></samlp:Status>%s</samlp:Response>`,
+		f.reqID, f.now.UTC().Format("2006-01-02T15:04:05.000Z"), f.sp.AcsURL.String(), f.cfg.Entity, inner)
+}
+
+func (f *spFixture) parse(xmlText string) (kind, detail string) {
+	defer func() {
+		if p := recover(); p != nil {
+			kind, detail = "panic", fmt.Sprint(p)
+		}
+	}()
+	withGlobals(f.cfg, f.now, func() {
+		a, err := f.sp.ParseXMLResponse([]byte(xmlText), []string{f.reqID}, url.URL(f.sp.AcsURL))
+		switch {
+		case err != nil && a == nil:
+			kind, detail = "rejected", err.Error()
+			if ire, ok := err.(*saml.InvalidResponseError); ok && ire.PrivateErr != nil {
+				detail = ire.PrivateErr.Error()
+			}
+		case err == nil && a != nil:
+			kind = "accepted"
+		default:
+			kind, detail = "inconsistent", "assertion and error both nil or both set"
+		}
+	})
+	return
+}
+
+type blockAlg struct {
+	uri     string
+	keySize int
+	bs      int
+	gcm     bool
+}
+
+var spAlgs = []blockAlg{
+	{"http://www.w3.org/2001/04/xmlenc#aes128-cbc", 16, 16, false}, {"http://www.w3.org/2001/04/xmlenc#aes192-cbc", 24, 16, false},
+	{"http://www.w3.org/2001/04/xmlenc#aes256-cbc", 32, 16, false}, {"http://www.w3.org/2001/04/xmlenc#tripledes-cbc", 24, 8, false},
+	{"http://www.w3.org/2009/xmlenc11#aes128-gcm", 16, 16, true}, {"urn:example:unknown-cipher", 16, 16, false},
+}
+
+// encryptedAssertionXML wraps [cipherValue] (already IV||ciphertext) with a content key wrapped to [pub].
+func encryptedAssertionXML(alg blockAlg, key []byte, pub *rsa.PublicKey, cipherValue []byte, certB64 string, sibling bool) string {
+	wrapped, _ := rsa.EncryptOAEP(sha1.New(), rand.Reader, pub, key, nil)
+	x509 := ""
+	if certB64 != "" {
+		x509 = `<ds:KeyInfo><ds:X509Data><ds:X509Certificate>` + certB64 + `</ds:X509Certificate></ds:X509Data></ds:KeyInfo>`
+	}
+	ek := `<xenc:EncryptedKey xmlns:xenc="http://www.w3.org/2001/04/xmlenc#" Id="_ek"><xenc:EncryptionMethod Algorithm="http://www.w3.org/2001/04/xmlenc#rsa-oaep-mgf1p">` +
+		`<ds:DigestMethod xmlns:ds="http://www.w3.org/2000/09/xmldsig#" Algorithm="http://www.w3.org/2000/09/xmldsig#sha1"/></xenc:EncryptionMethod>` + x509 +
+		`<xenc:CipherData><xenc:CipherValue>` + base64.StdEncoding.EncodeToString(wrapped) + `</xenc:CipherValue></xenc:CipherData></xenc:EncryptedKey>`
+	inner, outer := ek, ""
+	if sibling { // EncryptedKey as a sibling of EncryptedData (the other layout decryptElement supports)
+		inner, outer = "", ek
+	}
+	return `<saml:EncryptedAssertion xmlns:saml="urn:oasis:names:tc:SAML:2.0:assertion" xmlns:ds="http://www.w3.org/2000/09/xmldsig#">` +
+		`<xenc:EncryptedData xmlns:xenc="http://www.w3.org/2001/04/xmlenc#" Id="_ed" Type="http://www.w3.org/2001/04/xmlenc#Element">` +
+		`<xenc:EncryptionMethod Algorithm="` + alg.uri + `"/><ds:KeyInfo>` + inner + `</ds:KeyInfo>` +
+		`<xenc:CipherData><xenc:CipherValue>` + base64.StdEncoding.EncodeToString(cipherValue) + `</xenc:CipherValue></xenc:CipherData></xenc:EncryptedData>` + outer +
+		`</saml:EncryptedAssertion>`
+}
+
+func cbcEncrypt(alg blockAlg, key, plain []byte, r *mrand.Rand) []byte {
+	var blk cipher.Block
+	if alg.bs == 8 {
+		blk, _ = des.NewTripleDESCipher(key)
+	} else {
+		blk, _ = aes.NewCipher(key)
+	}
+	pad := alg.bs - len(plain)%alg.bs
+	p := append(append([]byte{}, plain...), make([]byte, pad)...)
+	p[len(p)-1] = byte(pad)
+	iv := make([]byte, alg.bs)
+	r.Read(iv)
+	out := make([]byte, len(p))
+	cipher.NewCBCEncrypter(blk, iv).CryptBlocks(out, p)
+	return append(iv, out...)
+}
+
+func c08SPSide(c *Ctx) {
+	g := c.Group("spside", nil, "bool", "check_bools")
+	r := c.Rng
+	now := c05Nows[0]
+	f := newSPFixture(now, false) // the IdP signs a plaintext assertion; the harness encrypts it itself
+	spPub := &fix.RSAKey("rsa_b").PublicKey
+	add := func(class string, key map[string]string, input any, ok bool, kind, detail string) {
+		key["class"] = class
+		c.Count("spside/" + class + "/" + kind)
+		c.Add(g, &Case{Key: key, Input: input, Obs: map[string]any{"outcome": kind, "detail": detail, "verdict": ok}, Term: emitBool(ok), Dedup: fmt.Sprint(c.N)})
+	}
+
+	// (1) malformed ciphertext of every length, for every cipher, with a correctly wrapped key (only the SP's public certificate is needed)
+	lengths := []int{0, 1, 7, 8, 9, 12, 15, 16, 17, 23, 24, 25, 28, 31, 32, 33, 40, 47, 48, 56, 64, 72, 96, 120, 168}
+	if c.Thorough() {
+		for l := 0; l <= 200; l++ {
+			lengths = append(lengths, l)
+		}
+	}
+	for _, alg := range spAlgs {
+		for _, l := range lengths {
+			for _, sibling := range []bool{false, true} {
+				if sibling && l%8 != 0 {
+					continue
+				}
+				key := make([]byte, alg.keySize)
+				r.Read(key)
+				cv := make([]byte, l)
+				r.Read(cv)
+				x := f.responseXML(encryptedAssertionXML(alg, key, spPub, cv, fix.CertB64("rsa_b"), sibling))
+				kind, detail := f.parse(x)
+				add("malformed-ciphertext", map[string]string{"alg": alg.uri, "len": fmt.Sprint(l), "sibling_key": fmt.Sprint(sibling)},
+					map[string]any{"cipher": alg.uri, "cipher_value_length": l, "encrypted_key_as_sibling": sibling}, kind == "rejected", kind, detail)
+			}
+		}
+		// wrong content-key length
+		for _, kl := range []int{0, 1, 15, 17, 24, 33} {
+			if kl == alg.keySize {
+				continue
+			}
+			key := make([]byte, kl)
+			cv := make([]byte, 64)
+			r.Read(cv)
+			x := f.responseXML(encryptedAssertionXML(alg, key, spPub, cv, "", false))
+			kind, detail := f.parse(x)
+			add("wrong-key-length", map[string]string{"alg": alg.uri, "keylen": fmt.Sprint(kl)}, map[string]any{"cipher": alg.uri, "content_key_length": kl}, kind == "rejected", kind, detail)
+		}
+	}
+
+	// (2) differential: the same IdP-built assertion, plaintext vs encrypted by a third party to the SP's certificate
+	variants := []struct {
+		name    string
+		mutate  func(*saml.Assertion)
+		signKey int64
+		want    string
+	}{
+		{"valid", nil, 1, "accepted"},
+		{"unsigned", nil, 0, "rejected"},
+		{"signed-by-untrusted-key", nil, 3, "rejected"},
+		{"conditions-expired", func(a *saml.Assertion) { a.Conditions.NotOnOrAfter = now.Add(-time.Hour) }, 1, "rejected"},
+		{"conditions-not-yet-valid", func(a *saml.Assertion) { a.Conditions.NotBefore = now.Add(time.Hour) }, 1, "rejected"},
+		{"bearer-expired", func(a *saml.Assertion) {
+			a.Subject.SubjectConfirmations[0].SubjectConfirmationData.NotOnOrAfter = now.Add(-time.Hour)
+		}, 1, "rejected"},
+		{"wrong-audience", func(a *saml.Assertion) { a.Conditions.AudienceRestrictions[0].Audience.Value = "https://other.example.com/md" }, 1, "rejected"},
+		{"wrong-recipient", func(a *saml.Assertion) {
+			a.Subject.SubjectConfirmations[0].SubjectConfirmationData.Recipient = "https://other.example.com/acs"
+		}, 1, "rejected"},
+		{"wrong-in-response-to", func(a *saml.Assertion) { a.Subject.SubjectConfirmations[0].SubjectConfirmationData.InResponseTo = "id-other" }, 1, "rejected"},
+		{"wrong-issuer", func(a *saml.Assertion) { a.Issuer.Value = "https://evil.example.net/md" }, 1, "rejected"},
+		{"issued-long-ago", func(a *saml.Assertion) { a.IssueInstant = now.Add(-time.Hour) }, 1, "rejected"},
+		{"no-subject", func(a *saml.Assertion) { a.Subject = nil }, 1, "rejected"},
+		{"no-conditions", func(a *saml.Assertion) { a.Conditions = nil }, 1, "rejected"},
+	}
+	for _, v := range variants {
+		ax, err := f.signedAssertion(v.mutate, v.signKey)
+		if err != nil {
+			add("differential", map[string]string{"variant": v.name}, map[string]any{"variant": v.name}, false, "setup-failed", err.Error())
+			continue
+		}
+		pk, pd := f.parse(f.responseXML(ax))
+		for _, alg := range spAlgs[:4] {
+			key := make([]byte, alg.keySize)
+			r.Read(key)
+			cv := cbcEncrypt(alg, key, []byte(ax), r)
+			ek, ed := f.parse(f.responseXML(encryptedAssertionXML(alg, key, spPub, cv, fix.CertB64("rsa_b"), false)))
+			ok := pk == ek && pk == v.want
+			add("differential", map[string]string{"variant": v.name, "alg": alg.uri},
+				map[string]any{"variant": v.name, "cipher": alg.uri, "assertion_xml": ax},
+				ok, fmt.Sprintf("plain=%s encrypted=%s", pk, ek), fmt.Sprintf("plain: %s | encrypted: %s", pd, ed))
+		}
+		// encrypted to a key that is not the SP's: undecryptable, a validation failure
+		other := &fix.RSAKey("rsa_c").PublicKey
+		key := make([]byte, 16)
+		r.Read(key)
+		cv := cbcEncrypt(spAlgs[0], key, []byte(ax), r)
+		kind, detail := f.parse(f.responseXML(encryptedAssertionXML(spAlgs[0], key, other, cv, "", false)))
+		add("encrypted-to-another-key", map[string]string{"variant": v.name}, map[string]any{"variant": v.name}, kind == "rejected", kind, detail)
+	}
+
+	// (3) plaintexts that are not an assertion document
+	for _, pt := range []string{"", " ", "not xml", "<a>", "<!-- only a comment -->", "<?xml version=\"1.0\"?>", "<saml:Assertion/>", "<Assertion xmlns=\"urn:oasis:names:tc:SAML:2.0:assertion\"/>",
+		"<a/><b/>", "\x00\x01\x02", "<a>\xff</a>"} {
+		alg := spAlgs[0]
+		key := make([]byte, alg.keySize)
+		r.Read(key)
+		cv := cbcEncrypt(alg, key, []byte(pt), r)
+		kind, detail := f.parse(f.responseXML(encryptedAssertionXML(alg, key, spPub, cv, "", false)))
+		add("plaintext-not-an-assertion", map[string]string{"plaintext": fmt.Sprintf("%q", pt)}, map[string]any{"plaintext": pt}, kind == "rejected", kind, detail)
+	}
+	_ = httptest.NewRecorder
+}
